@@ -27,7 +27,7 @@ try:
         r = subprocess.run(["go", "test", "-vet=off", "-count=1", "-skip", "Perf", "."], cwd=M, env=env, capture_output=True, text=True)
         print("repo tests:", "PASS" if r.returncode == 0 else "FAIL\n" + r.stdout[-2000:] + r.stderr[-2000:])
     for id in ids:
-        r = subprocess.run([os.path.join(V, "bin/check"), id, tier], env=dict(env, VERIF_REPO=M), capture_output=True, text=True)
+        r = subprocess.run([os.path.join(V, "bin/check"), id, tier], env=dict(env, VERIF_REPO=M, VERIF_OUT=M+"/.verifout"), capture_output=True, text=True)
         lines = [l for l in r.stdout.split("\n") if l.startswith(("VIOLATION", "KNOWN", "check ", "HARNESS"))]
         print(f"== {id}: exit {r.returncode}"); print("\n".join(lines[:8]))
         if "-v" in sys.argv: print(r.stderr[-3000:])
